@@ -711,7 +711,13 @@ impl<C: Config, Q: Query> Snapshot<C, Q> {
         self.upgrade_to_exclusive().await;
         let timsestamp = caller_information.timestamp();
 
+        // see `execute_query`: the block may outlive its caller
+        let active_computation_guard =
+            caller_information.clone_active_computation_guard();
+
         async move {
+            let _active_computation_guard = active_computation_guard;
+
             self.clean_query(
                 clean_edges,
                 new_tfc,
